@@ -1,5 +1,6 @@
-(* BuildGraphProofs.v — the graph the listener builds for accepted rules is well formed and CLOSED (no orphan in the
-   working memory), so NewKnowledgeBaseInstance succeeds on it (C09_clone); a refused rule can leave an orphan (D10a). *)
+(* BuildGraphProofs.v — the graph the builder makes from ANY sequence of accepted and rejected resources (walk of the
+   listener, roll-back to the checkpoint on rejection) is well formed and CLOSED (no orphan in the working memory), so
+   NewKnowledgeBaseInstance succeeds on it (C09_clone); without the roll-back a refused rule leaves an orphan (D10a). *)
 From Coq Require Import List String Bool Lia Arith.
 From Grule Require Import Base Clone BuildGraph CloneProofs.
 Import ListNotations.
@@ -265,14 +266,44 @@ Proof.
     + destruct (Kc s i Hin) as (key0 & r0 & Hr & Hd). exists key0, r0. split; [right; exact Hr|]. eapply desc_ext; eauto.
 Qed.
 
-Lemma build_rules_K : forall rs kb, K kb -> K (fold_left add_rule rs kb).
-Proof. induction rs as [|r rs IH]; simpl; intros kb Hk; auto. apply IH. apply add_rule_K. exact Hk. Qed.
-
-(* every knowledge base built from accepted rules only is well formed and closed, hence clonable (C09_clone) *)
-Theorem accepted_build_closed : forall rs, wf_kb (to_kbg (build_rules rs)) /\ closed (to_kbg (build_rules rs)).
+(* the walk keeps the invariant and only extends the heap *)
+Lemma add_rule_ext : forall kb r, K kb -> gext (b_g (k_st kb)) (b_g (k_st (add_rule kb r))).
 Proof.
-  intros rs. pose proof (build_rules_K rs empty_bkb K_empty) as [Kj Kr Kc]. fold (build_rules rs) in *.
-  split.
+  intros kb [key t] [Kj _ _]. unfold add_rule. simpl. destruct (build_tree t (k_st kb)) as [st id] eqn:E.
+  pose proof (build_tree_spec t (k_st kb) Kj st id E) as Rt. destruct (r_ext _ _ _ _ Rt) as (X & _). exact X.
+Qed.
+
+Lemma walk_K : forall rs kb, K kb -> K (walk kb rs) /\ gext (b_g (k_st kb)) (b_g (k_st (walk kb rs))).
+Proof.
+  unfold walk. induction rs as [|r rs IH]; simpl; intros kb Hk.
+  - split; auto. intros i nd H; exact H.
+  - destruct (IH (add_rule kb r) (add_rule_K kb r Hk)) as (K2 & X2). split; auto.
+    intros i nd H. apply X2. apply (add_rule_ext kb r Hk). exact H.
+Qed.
+
+(* restore(): the remembered rule entries and working-memory maps on the heap the walk has extended *)
+Lemma restore_K : forall old new, K old -> K new -> gext (b_g (k_st old)) (b_g (k_st new)) -> K (restore old new).
+Proof.
+  intros old new [Oj Or Oc] [Nj Nr Nc] X. constructor; simpl.
+  - destruct Nj as [Nlt Nkids Nnd Nwm Nsc]. constructor; simpl; auto.
+    + intros s i Hin. destruct (j_wm _ Oj s i Hin) as (nd & Hnd). exists nd. apply X. exact Hnd.
+    + exact (j_sc _ Oj).
+  - intros key r Hin. destruct (Or key r Hin) as (nd & Hnd). exists nd. apply X. exact Hnd.
+  - intros s i Hin. destruct (Oc s i Hin) as (key & r & Hr & Hd). exists key, r. split; auto. eapply desc_ext; eauto.
+Qed.
+
+Lemma build_resource_K : forall kb res, K kb -> K (build_resource kb res).
+Proof.
+  intros kb [rs ok] Hk. unfold build_resource. simpl. destruct (walk_K rs kb Hk) as (K2 & X). destruct ok; auto.
+  apply restore_K; auto.
+Qed.
+
+Lemma build_history_K : forall h kb, K kb -> K (fold_left build_resource h kb).
+Proof. induction h as [|r h IH]; simpl; intros kb Hk; auto. apply IH. apply build_resource_K. exact Hk. Qed.
+
+Lemma K_wf_closed : forall kb, K kb -> wf_kb (to_kbg kb) /\ closed (to_kbg kb).
+Proof.
+  intros kb [Kj Kr Kc]. split.
   - split; simpl.
     + split; [exact (j_nd _ Kj)|]. intros id nd H k Hk. exact (j_kids _ Kj id nd H k Hk).
     + exact Kr.
@@ -281,18 +312,34 @@ Proof.
     destruct (Kc s i Hin) as (key & r & Hr & Hd). exists key, r. simpl. auto.
 Qed.
 
-Corollary accepted_build_clonable : forall rs start, exists kb' t next,
-  clone_kb (S (max_id (g_nodes (to_kbg (build_rules rs))))) start (to_kbg (build_rules rs)) = Ok (kb', t, next).
+(* every knowledge base built from accepted rules only is well formed and closed, hence clonable (C09_clone) *)
+Theorem accepted_build_closed : forall rs, wf_kb (to_kbg (build_rules rs)) /\ closed (to_kbg (build_rules rs)).
+Proof. intros rs. apply K_wf_closed. apply (walk_K rs empty_bkb K_empty). Qed.
+
+(* the same after ANY sequence of accepted and rejected resources: a rejected resource is walked by the listener and then
+   rolled back to the checkpoint; whatever it registered is forgotten, so no orphan is left in the working memory *)
+Theorem any_build_history_closed : forall h, wf_kb (to_kbg (build_history h)) /\ closed (to_kbg (build_history h)).
+Proof. intros h. apply K_wf_closed. apply build_history_K. apply K_empty. Qed.
+
+Corollary any_build_history_clonable : forall h start, exists kb' t next,
+  clone_kb (S (max_id (g_nodes (to_kbg (build_history h))))) start (to_kbg (build_history h)) = Ok (kb', t, next).
 Proof.
-  intros rs start. destruct (accepted_build_closed rs) as (Hwf & Hcl).
+  intros h start. destruct (any_build_history_closed h) as (Hwf & Hcl).
   destruct (clone_closed_ok _ start Hwf Hcl) as (kb' & t & next & E & _). eauto.
 Qed.
 
-(* D10a on the model: a refused rule whose expression is new leaves an orphan, and the clone fails *)
+(* what the checkpoint prevents (D10a, the code before engine commit 4ed034e): the walk of a refused rule that is NOT
+   rolled back leaves its new expression in the working memory as an orphan, and the clone fails (C09_orphan);
+   with the roll-back the same history is clonable *)
 Definition d10a_tree (c : string) : tree :=
   Tr "RuleEntry" "R1" [Tr "WhenScope" "" [Tr "Expression" c [Tr "ExpressionAtom" c [Tr "Constant" c []]]]].
-Definition d10a_kb : bkb := Eval vm_compute in reject_rule (build_rules [("R1"%string, d10a_tree "1")]) ("R1"%string, d10a_tree "7").
+Definition d10a_unrestored : bkb := Eval vm_compute in walk_unrestored (build_rules [("R1"%string, d10a_tree "1")]) ("R1"%string, d10a_tree "7").
+Definition d10a_restored : bkb := Eval vm_compute in build_history [([("R1"%string, d10a_tree "1")], true); ([("R1"%string, d10a_tree "7")], false)].
 
-Example rejected_build_not_clonable :
-  clone_kb (S (max_id (g_nodes (to_kbg d10a_kb)))) 100 (to_kbg d10a_kb) = Err /\ closedb (to_kbg d10a_kb) = false.
-Proof. split; vm_compute; reflexivity. Qed.
+Example without_checkpoint_not_clonable :
+  clone_kb (S (max_id (g_nodes (to_kbg d10a_unrestored)))) 100 (to_kbg d10a_unrestored) = Err.
+Proof. vm_compute. reflexivity. Qed.
+
+Example with_checkpoint_clonable :
+  is_ok (clone_kb (S (max_id (g_nodes (to_kbg d10a_restored)))) 100 (to_kbg d10a_restored)) = true.
+Proof. vm_compute. reflexivity. Qed.
